@@ -605,20 +605,46 @@ func runPktzHist(c *Case, codec pktzCodec, mtu int, pt int, ssrc, ts0 uint32, se
 			}
 		}
 	}
+	// Observations are WRITTEN after the whole history has run (the packets of every call are kept
+	// until then): what an earlier call returned must still be what it was when a later call has
+	// happened — a packetizer that reuses memory between calls would change earlier packets
+	// (seed C06-r2-2).  A panic inside Packetize / GeneratePadding is reported as one impossible
+	// packet (version 255), which fails the predicate with the history as the replay.
+	var later []func()
+	bogus := func(tok string) {
+		later = append(later, func() {
+			c.O.Tok(tok)
+			if tok == "P" {
+				c.O.None()
+			}
+			c.O.Nat(1).Nat(255).Bool(false).Bool(false).Bool(false).Nat(0).Nat(0).Nat(0).Nat(0).Nat(0).Nat(0).Bytes(nil).Nat(0).Nat(0).Panic().Bool(false)
+		})
+	}
 	for _, op := range ops {
 		switch op.kind {
 		case 'P':
 			now = op.now
 			rec.want, rec.calls, rec.frags = op.payload, 0, nil
-			pkts := p.Packetize(op.payload, op.samples)
-			c.I.Tok("P").Bytes(op.payload).U64(uint64(op.samples)).I64(op.now).BytesList(rec.frags)
-			c.O.Tok("P")
-			if rec.calls == 0 {
-				c.O.None()
-			} else {
-				c.O.Some().Nat(int(rec.budget)).Bool(rec.same && rec.calls == 1)
+			var pkts []*rtp.Packet
+			if try(func() { pkts = p.Packetize(op.payload, op.samples) }) {
+				c.I.Tok("P").Bytes(op.payload).U64(uint64(op.samples)).I64(op.now).BytesList(rec.frags)
+				bogus("P")
+				tags["P:panic"] = true
+				continue
 			}
-			pktzObsPkts(&c.O, pkts)
+			c.I.Tok("P").Bytes(op.payload).U64(uint64(op.samples)).I64(op.now).BytesList(rec.frags)
+			{
+				calls, budget, same := rec.calls, rec.budget, rec.same
+				later = append(later, func() {
+					c.O.Tok("P")
+					if calls == 0 {
+						c.O.None()
+					} else {
+						c.O.Some().Nat(int(budget)).Bool(same && calls == 1)
+					}
+					pktzObsPkts(&c.O, pkts)
+				})
+			}
 			see(pkts)
 			switch {
 			case len(op.payload) == 0:
@@ -642,17 +668,20 @@ func runPktzHist(c *Case, codec pktzCodec, mtu int, pt int, ssrc, ts0 uint32, se
 		case 'S':
 			p.SkipSamples(op.n)
 			c.I.Tok("S").U64(uint64(op.n))
-			c.O.Tok("S")
+			later = append(later, func() { c.O.Tok("S") })
 			if ts+uint64(op.n) > 0xFFFFFFFF {
 				tags["ts:wrapped"] = true
 			}
 			ts = (ts + uint64(op.n)) & 0xFFFFFFFF
 			tags["S"] = true
 		case 'G':
-			pkts := p.GeneratePadding(op.n)
+			var pkts []*rtp.Packet
 			c.I.Tok("G").U64(uint64(op.n))
-			c.O.Tok("G")
-			pktzObsPkts(&c.O, pkts)
+			if try(func() { pkts = p.GeneratePadding(op.n) }) {
+				bogus("G")
+				continue
+			}
+			later = append(later, func() { c.O.Tok("G"); pktzObsPkts(&c.O, pkts) })
 			see(pkts)
 			if op.n > 0 {
 				tags["G:n>0"] = true
@@ -662,9 +691,12 @@ func runPktzHist(c *Case, codec pktzCodec, mtu int, pt int, ssrc, ts0 uint32, se
 		case 'E':
 			p.EnableAbsSendTime(op.id)
 			c.I.Tok("E").Nat(op.id)
-			c.O.Tok("E")
+			later = append(later, func() { c.O.Tok("E") })
 			absOn = op.id != 0
 		}
+	}
+	for _, f := range later {
+		f()
 	}
 	for t := range tags {
 		c.Tag(t)
